@@ -49,7 +49,8 @@ ASSUMPTIONS = (
 EXPECTED_PROBES = ("rewrite:missing", "rewrite:older", "rewrite:magic", "reuse-unchanged", "either-zone",
                    "crash:before-create", "crash:during-fill", "crash:between-close-and-move", "crash:after-move",
                    "crash:in-mkdir", "multi:two-writers-in-write-phase", "multi:reader-loaded-while-writer-midway",
-                   "writer-called", "fault-raised-cleanly", "survivor-regenerated", "survivor-reused", "same-process-reconstruct")
+                   "writer-called", "fault-raised-cleanly", "survivor-regenerated", "survivor-reused", "same-process-reconstruct",
+                   "source-is-a-symlink")
 
 TRAILER = b'__M_END_METADATA\n"""\n'
 ENCODINGS = {
@@ -133,6 +134,8 @@ def generate(rng, tier, idx, force=None):
                 "sched_seed": rng.getrandbits(32), "crash": rng.random() < 0.35}
         cfg["writer"] = False
         cfg["auto_tick"] = rng.choice((0.0, 0.001)) if sub else 0.0
+    # the source path is a symbolic link (a "current release" link): edits go to its target, the link keeps its own age
+    cfg["linksrc"] = rng.random() < 0.2
     return {"engine": NAME, "property": PROPERTY, "config": cfg, "ops": ops, "tail": tail, "faults": faults}
 
 
@@ -204,7 +207,7 @@ def node_construct_twice(world, clock, spec, new_source, modpath):
     was = world.enabled
     world.enabled = False
     try:
-        world.put_file(spec["src"], new_source, new_mtime)
+        world.put_file(os.path.realpath(spec["src"]), new_source, new_mtime)
     finally:
         world.enabled = was
     spec2 = dict(spec)
@@ -229,6 +232,13 @@ class Driver:
         self.uri = "/" + rel
         self.src = posixpath.join(self.srcdir, rel)
         self.modpath = posixpath.join(self.moddir, rel + ".py")
+        if cfg.get("linksrc"):
+            os.makedirs(posixpath.dirname(self.src), exist_ok=True)
+            target = posixpath.join(root, "releases", "t.html")
+            os.makedirs(posixpath.dirname(target), exist_ok=True)
+            os.symlink(target, self.src)
+            ns = int(self.clock.now * 1e9)
+            os.utime(self.src, ns=(ns, ns), follow_symlinks=False)
         self.v = 0
         self.viol = []
         self.probes = {}
@@ -352,7 +362,9 @@ class Driver:
             mtime = M
         else:
             mtime = M - 2.0
-        m = self.world.put_file(self.src, source_bytes(self.v, self.cfg["encoding"], self.cfg["pad"]), mtime)
+        m = self.world.put_file(os.path.realpath(self.src), source_bytes(self.v, self.cfg["encoding"], self.cfg["pad"]), mtime)
+        if self.cfg.get("linksrc"):
+            self.probe("source-is-a-symlink")
         self.log.add("modify", mode, self.v, round(m, 6))
 
     def do(self, op):
